@@ -17,14 +17,14 @@
 EXTENDS TraceBase, Integers, FiniteSets
 
 CONSTANTS MaxCallDepth
-VARIABLES l, nprog
+VARIABLES l, nprog, last      \* last = result of the reference interpreter for the current line
 
 C == INSTANCE Closure
 
-tvars == <<l, nprog>>
+tvars == <<l, nprog, last>>
 Ev == Log[l]
 
-TraceInit == HWInit /\ l = 1 /\ nprog = 0
+TraceInit == HWInit /\ l = 1 /\ nprog = 0 /\ last = [ctl |-> "none"]
 IsEvent(e) == l <= NLog /\ Ev.e = e /\ l' = l + 1
 
 \* observed value equals model value (blocks have no observable identity)
@@ -53,8 +53,7 @@ PostOK(run, i, sh) ==
                  /\ r.ctl \in {"norm", "exc"}
                  /\ PostOK(run, i + 1, r.sh)
 
-ProgOK ==
-    LET run == C!RunF(Ev.body) IN
+ProgOK(run) ==
     \/ Ev.note = "fuel"
     \/ run.ctl = "undef"
     \/ run.ctl = "nil"          \* F fell off its end: its value is not part of the model
@@ -63,8 +62,9 @@ ProgOK ==
        /\ (run.ctl \in {"ret", "obs"} => PostOK(run, 1, run.sh))
        /\ (run.ctl \notin {"ret", "obs"} => Len(Ev.post) = 0)
 
-TrProg == IsEvent("Prog") /\ ProgOK /\ nprog' = nprog + 1
-TrReset == IsEvent("Reset") /\ nprog' = 0
+\* the reference interpreter runs once per line (the primed variable holds its result)
+TrProg == IsEvent("Prog") /\ last' = C!RunF(Ev.body) /\ ProgOK(last') /\ nprog' = nprog + 1
+TrReset == IsEvent("Reset") /\ nprog' = 0 /\ last' = [ctl |-> "none"]
 
 TraceNext == TrProg \/ TrReset
 TraceSpec == TraceInit /\ [][TraceNext]_tvars
